@@ -576,6 +576,9 @@ func classify(err error) string {
 	case err == errCleanup:
 		return "RCleanupErr"
 	}
+	if _, ok := err.(sarama.ConfigurationError); ok {
+		return "RFetchErr" // ManagePartition: "That topic/partition is already being managed"
+	}
 	if k, ok := err.(sarama.KError); ok {
 		switch int(k) {
 		case codeNoCoord:
